@@ -110,6 +110,18 @@ CHECKS = {
         "assumptions": A_SIM + ["cid leakage is a substring scan: a transformed cid would not be recognised"],
         "parts": [sim(300, 5000)],
     },
+    "C11": {
+        "level": "fault_enumeration",
+        "rule": "rapid generates base histories (4-16 ops after an optional prologue of established subscriptions; C01 generator incl. calls, token resets, resets with access patterns; a third with resetThrottle/referenceThrottle 1-2 so that work can be waiting inside a throttle); for each base of n ops and each of its (up to 3) connections, n+1 variants close that connection before op k, each run in a fresh gateway (evaluations = base + variant runs); oracle: the connection-event subscription is released in the step of the close, no access/call/auth request carrying that connection id is issued in any later step (incl. after token resets and throttle hand-offs), the other connections still get every response (C07 oracle) and converge (C01 oracle), and after closing everything the cache is empty (C09 end state and use-count invariant). Non-trivial = the connection had an unanswered service request or client request when it was closed; distinct by variant script hash",
+        "assumptions": A_SIM + ["gets are anonymous at the messaging boundary: for them only the cache clean-up is asserted", "aborting an HTTP request mid-flight is not modelled"],
+        "parts": [sim(20, 300)],
+    },
+    "C20": {
+        "level": "fault_enumeration",
+        "rule": "rapid generates base histories (3-12 ops after an optional prologue; idle connections, outstanding subscribe/get/call requests, pending evictions with a 20 ms delay); for each base of n ops and each fault in {Stop(nil), loss of the messaging connection (closed handler invoked from its own goroutine)}, n+1 variants inject the fault before op k in a fresh gateway, followed by a WebSocket dial, an HTTP GET, Start, a new connection subscribing, and the final Stop; oracle: every client socket reads EOF in the fault's step, the stop channel delivers the cause (nil / the lost-connection error), the dial after the fault is not upgraded, the HTTP request gets 503, Stop returns (a Stop that has not returned after 30 s is a deadlock), nothing crashes (journal), no goroutine is left behind, and the restarted service serves the subscribe. Non-trivial = a service request or client request was outstanding when the fault struck; distinct by variant script hash",
+        "assumptions": A_SIM + ["base histories contain no HTTP request outstanding at the fault (the 3 s / 5 s shutdown constants cannot be shortened)", "TLS and real listeners are not exercised"],
+        "parts": [sim(25, 400)],
+    },
     "C07": {
         "level": "exploration",
         "rule": "rapid stateful generation of request mixes (1-2 connections, subscribe/get/unsubscribe/call/auth/new/ill-formed methods, every outcome and order of the dependent access/get/call answers, events, deletes, revocations), end-of-history epilogue answering everything; oracle: reference client counts responses per id (never two, never unknown, error objects with string code/message) and at quiescence every id on an open connection has exactly one. Non-trivial = >=2 requests for one rid overlapped, or an unsubscribe/unsubscribe event/delete hit a rid with a pending request; distinct by hash of the executed script",
@@ -127,6 +139,10 @@ CHECKS = {
 SIM_NOTE = "trusted: the harness (mock mq, reference client/service, quiescence detector) and rapid; exploration never proves absence; goroutine interleavings inside the gateway are sampled only"
 
 META = {
+    "C20": {"engine": "sim", "design_ref": "6 C20", "technique": "fault enumeration over rapid-generated base histories: Stop / messaging loss injected before every step, each variant judged by shutdown and restart oracles",
+            "text": "every step of every generated base history is a fault point for Stop and for messaging loss; disconnection of all clients, refusal of new work, reporting of the cause, termination of Stop and restartability are asserted per variant.", "note": SIM_NOTE},
+    "C11": {"engine": "sim", "design_ref": "6 C11", "technique": "fault enumeration over rapid-generated base histories: a disconnect injected before every step of every base, each variant judged by trace invariants and the end-state oracle",
+            "text": "every step of every generated base history is a disconnect point for each connection; clean-up, absence of later requests on its behalf, and unaffected other connections are asserted per variant.", "note": SIM_NOTE},
     "C10": {"engine": "sim", "design_ref": "6 C10", "technique": "stateful property-based testing (rapid); trace invariants attributing every request, subject, token and frame to its connection",
             "text": "multi-connection histories with {cid} resources and token traffic; every outbound request and every client frame is scanned for foreign ids and tokens.", "note": SIM_NOTE},
     "C16": {"engine": "sim", "design_ref": "6 C16", "technique": "property-based differential testing (rapid): generated resource graphs rendered through the real HTTP handler vs an independent reference renderer",
